@@ -57,9 +57,10 @@ def run(pid, tier, args):
         for g in gs:
             g.pop("inputs", None)
             g["structure"] = True
+            g["userprods"] = []
         # hand-written Go types (anonymous / embedded structs): structure-independent clauses only
-        for sid in ("static-embedded", "static-anon-two", "static-anon-rec", "static-alias", "static-unicode-names"):
-            gs.append({"id": sid, "structure": False, "root": "", "prods": [], "unions": {}})
+        for sid in ("static-embedded", "static-anon-two", "static-anon-rec", "static-alias", "static-unicode-names", "static-parseable-twice"):
+            gs.append({"id": sid, "structure": False, "root": "", "prods": [], "unions": {}, "userprods": ["EsAmount"] if sid == "static-parseable-twice" else []})
         src = os.path.join(wd, "harness-src")
         codegen.emit([g for g in gs if g["structure"]], os.path.join(src, "gengram", "gen.go"))
         vhg = os.path.join(wd, "vh-gengram")
